@@ -182,18 +182,27 @@ fn main() {
         "containers" => {
             // tsgv containers <seqs.ndjson> <out.ndjson>: only sequences that disagree are written out
             exec::silence_panics();
-            let items = read_ndjson(&args[2]);
+            // streamed: the exhaustive tier replays millions of sequences
+            use std::io::BufRead;
+            let f = std::io::BufReader::new(std::fs::File::open(&args[2]).expect("open sequences"));
             let mut bad = Vec::new();
             let mut ops = 0usize;
-            for it in items.iter() {
+            let mut n = 0usize;
+            for line in f.lines() {
+                let line = line.expect("read line");
+                if line.trim().is_empty() {
+                    continue;
+                }
+                let it: J = serde_json::from_str(&line).expect("sequence json");
+                n += 1;
                 ops += it["hist"].as_array().map(|a| a.len()).unwrap_or(0);
-                let r = std::panic::catch_unwind(|| api::containers(it)).unwrap_or_else(|p| json!({"op": "panic", "detail": api::panic_msg(p)}));
-                if !r.is_null() {
+                let r = std::panic::catch_unwind(|| api::containers(&it)).unwrap_or_else(|p| json!({"op": "panic", "detail": api::panic_msg(p)}));
+                if !r.is_null() && bad.len() < 1000 {
                     bad.push(json!({"seq": it, "mismatch": r}));
                 }
             }
             write_ndjson(&args[3], &bad);
-            println!("{} sequences {} operations {} mismatches", items.len(), ops, bad.len());
+            println!("{} sequences {} operations {} mismatches", n, ops, bad.len());
         }
         "parse-errors" => {
             // tsgv parse-errors <dir> <out.json>
